@@ -1,0 +1,18 @@
+//go:build verif
+
+package storage
+
+// Contracts for the namespaced key-value store, checked by /verif/govc.
+// Comment-only file: it adds nothing to any build.
+//
+// ---- namespaces (property C18): every service reads and writes its identity under "<namespace>.<key>" ----
+// The prefix slice has no spare capacity, so append(s.ns, key...) in Get and Set always copies and two
+// users of one namespace value never write into each other's key.
+//@ func Namespace
+//@   check safety, frame
+//@   ensures [ok] result1 == nil && result0 != nil
+//@   ensures [shape] len(result0.ns) == len(namespace) + 1 && cap(result0.ns) == len(result0.ns)
+//@   ensures [prefix] forall i int :: 0 <= i && i < len(namespace) ==> result0.ns[i] == namespace[i]
+//@   ensures [dot] result0.ns[len(namespace)] == '.'
+//@   ensures [own] fresh(result0) && fresh(result0.ns)
+//@   modifies nothing
